@@ -301,13 +301,48 @@ pub fn opus(packet: &[u8]) -> OpusVerdict {
             if packet.len() < 2 {
                 return OpusVerdict::Invalid;
             }
-            let count = packet[1] & 0x3f;
+            let count = (packet[1] & 0x3f) as usize;
             if count == 0 {
                 return OpusVerdict::Invalid;
             }
-            // total duration > 120 ms is malformed per RFC but beyond the documented check
-            OpusVerdict::DontCare
+            // RFC 6716 3.2.5: a CBR code-3 packet (with or without padding) that satisfies
+            // R1..R7 is definitely valid; everything else is left to the don't-care zone.
+            let vbr = packet[1] & 0x80 != 0;
+            let padded = packet[1] & 0x40 != 0;
+            if vbr || count as u32 * opus_frame_samples(packet[0] >> 3) > 5760 {
+                return OpusVerdict::DontCare;
+            }
+            let mut o = 2usize;
+            let mut pad = 0usize;
+            if padded {
+                loop {
+                    let Some(&b) = packet.get(o) else {
+                        return OpusVerdict::DontCare;
+                    };
+                    o += 1;
+                    if b == 255 {
+                        pad += 254;
+                    } else {
+                        pad += b as usize;
+                        break;
+                    }
+                }
+            }
+            let rest = packet.len() - o;
+            if rest < pad || (rest - pad) % count != 0 || (rest - pad) / count > 1275 {
+                return OpusVerdict::DontCare;
+            }
+            OpusVerdict::Valid
         }
+    }
+}
+
+/// samples per frame at 48 kHz for TOC config 0..31 (RFC 6716 table 2)
+pub fn opus_frame_samples(config: u8) -> u32 {
+    match config {
+        0..=11 => [480, 960, 1920, 2880][(config % 4) as usize],
+        12..=15 => [480, 960][(config % 2) as usize],
+        _ => [120, 240, 480, 960][(config % 4) as usize],
     }
 }
 
